@@ -188,6 +188,38 @@ def rename_fragments(case, names):
     return out
 
 
+def check_atom_annotations(case, aa, prefix='c02'):
+    """every fine atom shows the annotations WRITTEN on the fragment atom(s) it is a copy of (independent annotation model);
+    a shared atom is a copy of two or more fragment atoms and shows what was written on any of them (the generator never writes
+    two different values under one key); -> ([(clause, msg)], number of annotated atoms seen)"""
+    want = case.get('atom_annotations') or {}
+    out, seen = [], 0
+    for n, d in aa.nodes(data=True):
+        m = d.get('mapping') or []
+        if not m:
+            continue
+        exps = [want.get('%s|%s' % (e[0], e[1])) for e in m]
+        written = {}
+        for x in exps:
+            for k, v in (x or {}).items():
+                if k == 'weight' and v == 1.0 and 'weight' in written:
+                    continue
+                if k == 'weight' and v == 1.0 and any((y or {}).get('weight', 1.0) != 1.0 for y in exps):
+                    continue
+                written[k] = v
+        if not written:
+            if d.get('element') != 'H' and d.get('weight', 1) != 1:
+                out.append((prefix + '.annotation_on_unannotated_atom', f"atom {n} (copy of {m}) has weight {d.get('weight')!r} but no annotation was written on it"))
+                break
+            continue
+        seen += 1
+        bad = {k: (d.get(k, '<missing>'), v) for k, v in written.items() if d.get(k, '<missing>') != v}
+        if bad:
+            out.append((prefix + ('.shared_atom_annotation' if len(m) > 1 else '.copy_annotation'), f"atom {n} (copy of {m}): (found, written) {bad}"))
+            break
+    return out, seen
+
+
 def case_text(case):
     if case.get('ctor', 'string') == 'from_graph':
         return f"from_graph(base nodes {case['base_graph']['nodes']} edges {case['base_graph']['edges']}, {case['frag_string']})"
@@ -254,7 +286,7 @@ def kinds_unambiguous_without_labels(case):
     return True
 
 
-def random_shared_case(rng, max_heavy, p_share=0.6, ctor=None, label_insensitive=False, mol_kw=None):
+def random_shared_case(rng, max_heavy, p_share=0.6, ctor=None, label_insensitive=False, mol_kw=None, annotate=False):
     """-> (shared case, disjoint case) for the same molecule, partition and rng stream"""
     ringy = rng.random() < 0.4
     if ringy:
@@ -297,6 +329,33 @@ def random_shared_case(rng, max_heavy, p_share=0.6, ctor=None, label_insensitive
     if label_insensitive and not (kinds_unambiguous_without_labels(case) and kinds_unambiguous_without_labels(dis)):
         return None
     truth = M.truth_graph(g)
+    atom_annotations = {}
+    if annotate and rng.random() < 0.5:
+        # annotations on atoms of the fragments WITH shared atoms; the two copies of a shared atom may each carry some:
+        # free keys under different names, a weight on one copy only or the same weight on both
+        from ..gen import annot as A
+        gx_ = case['gx']
+        origin_ = case['origin']
+        weight_of = {}
+        for name, toks in case['tokens'].items():
+            new_toks = list(toks)
+            atoms_ = [k for k, t in enumerate(toks) if t[0] == 'atom']
+            for pos_, k in enumerate(atoms_):
+                t = toks[k]
+                d = gx_.nodes[t[2]]
+                is_shared = any(x[0] == '!' for x in case['desc'].get(t[2], []))
+                if rng.random() < (0.8 if is_shared else 0.25) and not d.get('aromatic') and d['charge'] == 0:
+                    o_ = origin_[t[2]]
+                    w = weight_of.get(o_) or rng.choice(['0.5', '0.25', '2', '1e-1'])
+                    key_ = 'note' if o_ == t[2] else 't' + name        # one key name per copy: never two values under one key
+                    text = rng.choice(['w=' + w, w + ';%s=%s' % (key_, rng.choice(['a', 'b2', '7'])), '%s=x' % key_, '%s=q;w=%s' % (key_, w)])
+                    if 'w=' in text or text[0].isdigit():
+                        weight_of[o_] = w
+                    txt = t[1] if t[1].startswith('[') else M.atom_text(d, d['hcount'] if rng.random() < 0.5 else 0, bracket=True)
+                    new_toks[k] = ('atom', txt[:-1] + ';' + text + ']', t[2])
+                    exp = A.model('frag', text)
+                    atom_annotations['%s|%d' % (name, pos_)] = {kk: vv for kk, vv in exp.items() if kk != 'chiral'}
+            case['frags'][name] = ''.join('(' if x[0] == 'open' else ')' if x[0] == 'close' else x[1] for x in new_toks)
     out = []
     for c in (case, dis):
         ast, pre = M.base_to_ast(rng, c['base'])
@@ -344,7 +403,9 @@ def random_shared_case(rng, max_heavy, p_share=0.6, ctor=None, label_insensitive
                single='{[#M]}.{#M=%s}' % smiles, nshared=len(case['shared']), natoms_frag=case['natoms_frag'],
                nheavy=len(g), nfrag=nparts, features=sorted(feats),
                base_string=out[0]['base_string'], frag_string=out[0]['frag_string'], ctor='string',
-               legacy=not label_insensitive)
+               legacy=not label_insensitive, atom_annotations=atom_annotations)
+    if atom_annotations:
+        res['features'] = sorted(set(res['features']) | {'annotated_fragment_atoms', 'annotations_on_shared_atoms'})
     if label_insensitive:
         res['features'] = sorted(set(res['features']) | {'label_insensitive_convention'})
     return res
@@ -665,7 +726,7 @@ def resolver_workload(rng, n, max_heavy=(3, 6, 10, 16)):
         elif r < 0.30:
             case = random_label_insensitive_cut_case(rng, rng.choice(max_heavy[:3]))
         elif r < 0.45:
-            case = random_shared_case(rng, rng.choice(max_heavy))
+            case = random_shared_case(rng, rng.choice(max_heavy), annotate=True)
         elif r < 0.55:
             c = random_cut_case(rng, rng.choice(max_heavy))
             case = add_virtual(rng, c) if c is not None else None
